@@ -262,6 +262,10 @@ def _single_expr(fn):
 def _simple(expr):
     if isinstance(expr, (ast.Name, ast.Constant)):
         return True
+    if isinstance(expr, ast.UnaryOp) and isinstance(
+            expr.op, (ast.USub, ast.UAdd)) and isinstance(
+            expr.operand, ast.Constant):
+        return True
     if isinstance(expr, ast.Call) and isinstance(expr.func, ast.Name) and \
             expr.func.id == "len" and len(expr.args) == 1 and \
             not expr.keywords:
@@ -289,9 +293,13 @@ class _Subst(ast.NodeTransformer):
         return node
 
     def visit_Lambda(self, node):
-        shadow = {a.arg for a in node.args.args}
+        shadow = {a.arg for a in node.args.args + node.args.kwonlyargs
+                  + node.args.posonlyargs}
         inner = _Subst({k: v for k, v in self.mapping.items()
-                        if k not in shadow}, self.renames)
+                        if k not in shadow},
+                       {k: v for k, v in self.renames.items()
+                        if k not in shadow})
+        node.args.defaults = [self.visit(d) for d in node.args.defaults]
         node.body = inner.visit(node.body)
         return node
 
@@ -612,6 +620,25 @@ class Inliner:
                         return body + [st]
         # nested calls inside the statement's own expressions
         for fld, root in self._own_exprs(st):
+            # calls that are evaluated per element / conditionally / later:
+            # only a pure expression may take their place
+            deferred = set()
+            for x in ast.walk(root):
+                subs = []
+                if isinstance(x, (ast.ListComp, ast.SetComp, ast.DictComp,
+                                  ast.GeneratorExp)):
+                    subs = [x.elt] if hasattr(x, "elt") else [x.key, x.value]
+                    for g_ in x.generators:
+                        subs.extend(g_.ifs)
+                    subs.extend(g_.iter for g_ in x.generators[1:])
+                elif isinstance(x, ast.Lambda):
+                    subs = [x.body]
+                elif isinstance(x, ast.IfExp):
+                    subs = [x.body, x.orelse]
+                elif isinstance(x, ast.BoolOp):
+                    subs = x.values[1:]
+                for s_ in subs:
+                    deferred |= {id(y) for y in ast.walk(s_)}
             for n in list(ast.walk(root)):
                 if not isinstance(n, ast.Call):
                     continue
@@ -625,6 +652,8 @@ class Inliner:
                     continue
                 body, ret = inst
                 if ret is None:
+                    continue
+                if id(n) in deferred and (body or h.kind != "expr"):
                     continue
                 key = (h.cls, h.fn.name)
                 if h.kind == "expr" and not body:
@@ -2154,6 +2183,10 @@ def normalize_module(tree: ast.Module, extern=None) -> ast.Module:
     _inline_contextmanagers(tree)
     from . import normalize2 as n2
     n2.inline_value_objects(tree)
+    n2.comprehension_calls_to_loops(tree)
+    n2.predicate_loops(tree)
+    n2.inline_search_helpers(tree)
+    n2.inline_loop_helpers(tree)
     n2.closure_forms(tree)
     n2.generators_to_lists(tree)
     n2.class_constants(tree)
@@ -2173,9 +2206,19 @@ def normalize_module(tree: ast.Module, extern=None) -> ast.Module:
             n2.inline_pure_flags(n)
             n2.first_match_loops(n)
             n2.local_sorts(n)
+    for n in ast.walk(tree):
+        if isinstance(n, ast.FunctionDef) and (
+                _is_private(n.name) or getattr(n, "_spliced", False)):
+            # one-expression local functions of a private worker become
+            # lambdas, so that the worker itself can be placed at its calls
+            _local_lambdas(n)
     for _round in range(2):
         before = ast.dump(tree) if _round else None
         tree = Inliner(tree).run()
+        for n in ast.walk(tree):
+            if isinstance(n, ast.FunctionDef):
+                # (local functions handed to a worker that is now in place)
+                n2.inline_local_defs(n)
         tree = Idioms().visit(tree)
         tree = Idioms2(coll).visit(tree)
         for n in ast.walk(tree):
@@ -2196,6 +2239,14 @@ def normalize_module(tree: ast.Module, extern=None) -> ast.Module:
         # (a second round folds helpers that only became direct calls
         # after a dispatch loop was unrolled)
     tree = n2.Idioms3().visit(tree)
+    for n in ast.walk(tree):
+        if isinstance(n, ast.FunctionDef):
+            n2.indexed_tuples(n)
+    # (records handed to a private helper are local again once the helper
+    # was placed at its call site)
+    if n2.inline_value_objects(tree):
+        tree = Inliner(tree).run()
+        tree = n2.Idioms3().visit(tree)
     for n in ast.walk(tree):
         if isinstance(n, ast.FunctionDef):
             for _ in range(4):
